@@ -259,12 +259,30 @@ Section StepLaw.
       destruct (e_kind E) as [m|]; [|reflexivity].
       destruct s as [x|]; [reflexivity|].
       rewrite notify_uninitialized. reflexivity.
-    - (* Delete: the law is silent *)
-      reflexivity.
+    - (* Delete: what the handlers are told is truthful *)
+      destruct (e_kind E) as [m|]; [|reflexivity]. destruct s as [old|]; [|reflexivity].
+      destruct (is_nil hs); [reflexivity|]. rewrite notify_uninitialized.
+      destruct (match m with MNone => true | _ => negb (old =? e_default E) end); [|reflexivity].
+      pose proof (notify_truthful E (OVal old) (e_default E)) as T.
+      destruct (notify E (OVal old) (e_default E)) as [cs sk]. cbn [fst snd o_calls o_slot app] in *.
+      assert (forallb (fun c : call => oldv_eqb (snd (fst c)) (OVal (readable E (Some old)))
+                                       && (e_default E =? snd c)) cs = true) as ->; [|reflexivity].
+      apply forallb_forall. intros c Hc. destruct (T c Hc) as [-> ->]. cbn. rewrite !Nat.eqb_refl. reflexivity.
     - (* QuietAssign: the law is silent *)
       reflexivity.
     - reflexivity.
     - reflexivity.
+  Qed.
+
+  (* what `del` tells the handlers as new IS stored afterwards *)
+  Lemma step_delete_stored s c : In c (o_calls (snd (step E s Delete))) -> o_slot (snd (step E s Delete)) = Some (snd c).
+  Proof.
+    unfold step. destruct (e_kind E) as [m|]; [|intros []]. destruct s as [old|]; [|intros []].
+    destruct (is_nil hs); [intros []|]. rewrite notify_uninitialized.
+    destruct (match m with MNone => true | _ => negb (old =? e_default E) end); [|intros []].
+    pose proof (notify_truthful E (OVal old) (e_default E) c) as T.
+    destruct (notify E (OVal old) (e_default E)) as [cs sk]. cbn [fst snd o_calls o_slot app] in *.
+    intros Hc. destruct (T Hc) as [_ ->]. reflexivity.
   Qed.
 
   Theorem run_law ops : forall s i, law_hist E i s (run E s ops) = [].
